@@ -252,12 +252,24 @@ def run_check(
     t1 = time.time()
     rres = C.replay_batch(replay_jobs)
     validated = 0
+    a1_notes: list[str] = []
     findings: list[Any] = []
     twin_confirmed: set[str] = set()
     for (kind, r, item), rr in zip(meta, rres):
         case = r["case"]
         if kind == "validate":
             want = inst(item["out"], item["model"])
+            if rr.get("failed") and not item["nviol"] and not case.get("twin"):
+                # The real code, run concretely on this path's model, breaks an obligation that the symbolic run
+                # considered proved: content uniformity (A1) does not hold for this code, and the failure itself is
+                # a reproduced violation on real code - report it (and keep the mismatch on record).
+                for f in rr["failed"][:2]:
+                    v = {"label": f["label"], "model": item["model"], "detail": f.get("detail"), "path": item["path"]}
+                    key = key_fn(case, f["label"], v, rr)
+                    what = what_fn(case, f["label"], v, rr) if what_fn else f"{f['label']} in case {case['key']} model={item['model']}"
+                    findings.append(C.Finding(prop, key, what + " [found by concrete replay of a path model]", {"op": "case", "module": module, "case": case, "model": item["model"], "label": f["label"]}))
+                a1_notes.append(f"{r['key']}: path {item['path']} model={item['model']}")
+                continue
             if "exc" in rr:
                 harness.append(f"{r['key']}: path {item['path']} validated to an exception on real code: {rr['exc']} model={item['model']}")
             elif rr["out"] != want:
@@ -303,6 +315,7 @@ def run_check(
         explore_wall_s=round(explore_s, 1),
         replay_wall_s=round(time.time() - t1, 1),
         replayed=len(replay_jobs),
+        concrete_only_violations=len(a1_notes),
     )
     for r in results[:3]:
         if r["status"] == "ok" and r["checks"]:
